@@ -112,10 +112,17 @@ def ensure_facts(config="default", packages=None, features=None, repo=None):
     os.makedirs(CACHE, exist_ok=True)
     target_dir = os.path.join(CACHE, "target" if config == "default" else "target-" + config)
     facts_dir = os.path.join(CACHE, "facts" if config == "default" else "facts-" + config)
-    lock = open(os.path.join(CACHE, "lock"), "w")
-    fcntl.flock(lock, fcntl.LOCK_EX)
+    # the driver build is serialised globally (short); fact extraction is serialised per configuration (= per target dir)
+    glock = open(os.path.join(CACHE, "lock"), "w")
+    fcntl.flock(glock, fcntl.LOCK_EX)
     try:
         build_driver()
+    finally:
+        fcntl.flock(glock, fcntl.LOCK_UN)
+        glock.close()
+    lock = open(os.path.join(CACHE, "lock" if config == "default" else "lock-" + config), "w")
+    fcntl.flock(lock, fcntl.LOCK_EX)
+    try:
         env = _env(target_dir, facts_dir)
         sha = _driver_sha()
         sha_file = os.path.join(facts_dir, "DRIVER_SHA")
